@@ -9,7 +9,7 @@ export VERIF_NO_EVIDENCE=1
 seed=$1; shift
 target=/repo
 if [ "${SCRATCH:-0}" = 1 ]; then
-  target=/tmp/vseed
+  target=${SCRATCH_DIR:-/tmp/vseed}
   [ -d $target ] || git -C /repo worktree add -q --detach $target HEAD
   git -C $target checkout -q --detach ${BASE:-$(git -C /repo rev-parse HEAD)}
   export VERIF_REPO=$target
